@@ -443,6 +443,48 @@ func c07FormatSafe(m *cypher.RegularQuery) (s string, err error) {
 	return format.RegularQuery(m, false)
 }
 
+func c07EmitsSame(m *cypher.RegularQuery, text string) bool {
+	again, err := c07FormatSafe(m)
+	return err == nil && again == text
+}
+
+// eraseParentheticals removes every (cypher.Parenthetical (Expression X)) wrapper of a model S-expression, leaving X.
+func eraseParentheticals(sx string) string {
+	const open = "(cypher.Parenthetical (Expression "
+	for {
+		i := strings.Index(sx, open)
+		if i < 0 {
+			return sx
+		}
+		depth, inStr, j := 0, false, i
+		for ; j < len(sx); j++ {
+			c := sx[j]
+			if inStr {
+				if c == '\\' {
+					j++
+				} else if c == '"' {
+					inStr = false
+				}
+				continue
+			}
+			if c == '"' {
+				inStr = true
+			} else if c == '(' {
+				depth++
+			} else if c == ')' {
+				depth--
+				if depth == 0 {
+					break
+				}
+			}
+		}
+		if j >= len(sx) || j-1 < i+len(open) {
+			return sx
+		}
+		sx = sx[:i] + sx[i+len(open):j-1] + sx[j+1:]
+	}
+}
+
 func clip(xs []string, n int) string {
 	if len(xs) > n {
 		xs = append(append([]string{}, xs[:n]...), "…")
@@ -507,6 +549,12 @@ func (r *c07Runner) Step(t []string, raw string) string {
 			case ToSexp(m2) == modelSx:
 				rt = "same"
 				r.stats.Inc("roundtrip_same")
+			case eraseParentheticals(ToSexp(m2)) == eraseParentheticals(modelSx) && c07EmitsSame(m2, text):
+				// the emitter wrote parentheses the precedence of its operand requires (format.writeOperand): the re-read model has an
+				// explicit Parenthetical there and is emitted as the same text again
+				rt = "same"
+				r.stats.Inc("roundtrip_same")
+				r.stats.Inc("roundtrip_same_modulo_emitter_parentheses")
 			default:
 				rt = "differ"
 			}
